@@ -34,8 +34,13 @@ def gen_case(rng, params):
         cut_at = rng.randint(0, len(data))
         data = data[:cut_at] + bytes(extra) + data[cut_at:]
         first_icase = rng.random() < 0.5
-    pieces = g.cut(rng, data)
-    ticks = g.schedule(rng, pieces)
+    paged = chunk == params["readChunkSize"] and rng.random() < 0.08
+    if paged:
+        # the piece that completes a match is filled to the last byte, and more data is waiting behind it
+        data, pieces = g.page_cut(rng, data, chunk, [rng.randint(1, len(data))] if data else [])
+    else:
+        pieces = g.cut(rng, data)
+    ticks = g.schedule(rng, pieces, "zero" if paged and rng.random() < 0.7 else None)
     ops = []
     for n_op in range(rng.randint(2, 3) if flagged is not None else rng.randint(1, 3)):
         pats = []
